@@ -275,7 +275,7 @@ class _K(object):
             return None
         d = clone(doc)
         set_value(d.recs[i], ep, sp, v)
-        return _mk(d, 'bad_code', i, ep, sp, ['7'], v, note=note if (cands and v == cands[0]) else None)
+        return _mk(d, 'bad_code', i, ep, sp, ['7'], v, note=note if (cands and v == cands[0]) else None, external=node.external)
 
     @staticmethod
     def bad_char(rng, doc):
